@@ -151,7 +151,7 @@ def self_check():
 # ------------------------------------------------------------------------------------------ alphabets (gauge)
 
 IDS = ["b", "a", "c"]  # "b" first: a joint cohort needs at least one observed event
-XI_ALPHABET = [-1.0, 0.0, 0.4, 2.0]
+XI_ALPHABET = [0.0, -1.0, 0.4, 2.0]
 TAUS = [[60.0, 66.0, 72.5], [70.0, 70.0, 70.0]]
 # sources: alternative 0 has an exactly zero overall mean for every (n, ns) block, alternative 1 has not
 SRC3 = [[-1.5, 1.0, 0.5], [0.0, 0.5, -0.5], [1.5, -1.5, 0.0]]
@@ -791,15 +791,13 @@ def bounds(tier):
 
 
 def shards(tier, seed):
-    out = []
-    for dim in (1, 2, 3, 4):
-        out.append({"part": "basis", "dim": dim, "tier": tier})
-    out.append({"part": "tangent", "tier": tier})
-    for spec in ortho_specs(tier):
-        out.append({"part": "ortho", "spec": spec, "tier": tier})
-    for spec in gauge_specs(tier):
-        out.append({"part": "gauge", "spec": spec, "tier": tier})
-    return out
+    # the enumerated spaces do not depend on the seed (nothing is drawn; there is no seed alphabet in this property)
+    basis = [{"part": "basis", "dim": dim, "tier": tier} for dim in (1, 2, 3, 4)]
+    tangent = [{"part": "tangent", "tier": tier}]
+    ortho = [{"part": "ortho", "spec": spec, "tier": tier} for spec in ortho_specs(tier)]
+    gauge = [{"part": "gauge", "spec": spec, "tier": tier} for spec in gauge_specs(tier)]
+    # one small shard of every part first (readable samples in the evidence), then the rest, simplest first
+    return basis[:2] + gauge[:1] + ortho[:1] + tangent + basis[2:] + ortho[1:] + gauge[1:]
 
 
 def _cases_of(shard):
@@ -824,7 +822,8 @@ def run_shard(shard):
         acc.outcome(res["outcome"])
         if res["nontrivial"]:
             acc.nontriv(digest(case))
-            acc.sample({"case": case, "outcome": res["outcome"]})
+            if not acc.samples:  # one written-out case per shard
+                acc.sample({"case": case, "outcome": res["outcome"]})
         for name, r in res.get("ratios", {}).items():
             # observed |difference| / tolerance, binned (evidence of the margin on the unchanged tree)
             b = "<=0.01" if r <= 0.01 else "<=0.1" if r <= 0.1 else "<=0.5" if r <= 0.5 else "<=1" if r <= 1 else ">1"
